@@ -13,6 +13,18 @@ fn no_reserve_inner(_this: &mut BytesMut, _additional: usize, _allocate: bool) -
     true
 }
 
+// Sound stub for the identity-rule harnesses: under their assumption (not current->legacy) the recursive walker must
+// be unreachable; the stub turns that into a proof obligation instead of exploring the 66-way recursion.
+#[allow(dead_code, single_use_lifetimes)]
+fn no_walker<'a, 'b>(_c: Convert<'a, 'b>) -> Result<(), ValueConversionError>
+where
+    'b: 'a,
+    'a: 'a,
+{
+    assert!(false);
+    Ok(())
+}
+
 fn any_version() -> ProtocolVersion {
     ProtocolVersion::new(kani::any(), kani::any())
 }
@@ -94,6 +106,7 @@ fn check_convert_identity_rule() {
 // obligation: C12.convert_identity_rule | harness: c12_convert_identity_rule | kind: complete | bound: none (all from/to versions except current->legacy) | tier: quick
 #[kani::proof]
 #[kani::unwind(4)]
+#[kani::stub(Convert::convert, no_walker)]
 fn c12_convert_identity_rule() {
     check_convert_identity_rule();
 }
@@ -101,6 +114,7 @@ fn c12_convert_identity_rule() {
 // obligation: C13.convert_identity_rule | harness: c13_convert_identity_rule | kind: complete | bound: none (all from/to versions except current->legacy) | tier: quick
 #[kani::proof]
 #[kani::unwind(4)]
+#[kani::stub(Convert::convert, no_walker)]
 fn c13_convert_identity_rule() {
     check_convert_identity_rule();
 }
